@@ -21,6 +21,9 @@ func c04LeafSet() []int {
 	return c04LeavesQuick
 }
 
+// c04Clauses: also vary the clause structure of the policy (set by the depth-1 harnesses).
+var c04Clauses bool
+
 func c04Compare(n ast.Node, g genEnv) {
 	// expression level: fold(n) vs n
 	folded := fold(n.AsIsNode())
@@ -38,6 +41,21 @@ func c04Compare(n ast.Node, g genEnv) {
 	// policy level: Compile (what Authorize runs) vs direct evaluation of the original tree
 	p := &ast.Policy{Effect: ast.EffectPermit, Principal: ast.ScopeTypeAll{}, Action: ast.ScopeTypeAll{}, Resource: ast.ScopeTypeAll{},
 		Conditions: []ast.ConditionType{{Condition: ast.ConditionWhen, Body: n.AsIsNode()}}}
+	// clause kinds and constant clauses around the condition (all foldable at compile time)
+	if c04Clauses {
+		switch vrt.Choice("clauses", 6) {
+		case 1:
+			p.Conditions[0].Condition = ast.ConditionUnless
+		case 2:
+			p.Conditions = append(p.Conditions, ast.ConditionType{Condition: ast.ConditionUnless, Body: ast.True().AsIsNode()})
+		case 3:
+			p.Conditions = append([]ast.ConditionType{{Condition: ast.ConditionUnless, Body: ast.Long(1).LessThan(ast.Long(2)).AsIsNode()}}, p.Conditions...)
+		case 4:
+			p.Conditions = append(p.Conditions, ast.ConditionType{Condition: ast.ConditionWhen, Body: ast.True().AsIsNode()}, ast.ConditionType{Condition: ast.ConditionUnless, Body: ast.False().AsIsNode()})
+		case 5:
+			p.Conditions = append([]ast.ConditionType{{Condition: ast.ConditionWhen, Body: ast.Long(2).LessThan(ast.Long(1)).AsIsNode()}}, p.Conditions...)
+		}
+	}
 	vrt.Freeze(p)
 	be := Compile(p)
 	vrt.Assert("C04.no-write-to-input-ast", vrt.Writes() == 0)
@@ -50,6 +68,7 @@ func c04Compare(n ast.Node, g genEnv) {
 }
 
 func VerifC04_FoldUnary() {
+	c04Clauses = true
 	g := genMkEnv()
 	op := vrt.Choice("op", uUnaryCount)
 	x, _ := genLeaf("x", c04LeafSet())
@@ -96,6 +115,7 @@ func VerifC04_FoldNested() {
 // Entity-dependent nodes must not be folded against the empty store: here the
 // store gives genE the attribute, tag and parent, so folding would be visible.
 func VerifC04_FoldEntityDependent() {
+	c04Clauses = true
 	g := genMkEnv()
 	e := ast.Value(genE)
 	var n ast.Node
